@@ -96,3 +96,153 @@ Theorem C06_source_constants :
   Gen.Consts.rlp_maxInt32 = Z.of_N Rlp.Model.maxInt32.
 Proof. vm_compute. repeat split; reflexivity. Qed.
 Print Assumptions C06_source_constants.
+
+(* ===== Answers to the referee report (design/reviews/C06.md); proofs in Rlp/Strict.v ===== *)
+From FFS Require Import Rlp.Strict.
+
+(* 8. (I2) Acceptance of every canonical encoding, stated on the Yellow-Paper function itself and with a
+      guard written on the specification side only ([tree_size_ok]: every byte array and every s(x) is at
+      most 2^31-1 bytes): whatever follows, Decode returns the tree ([of_tree] is the inverse of
+      [to_tree]) and the position just past the encoding. *)
+Theorem C06_decode_canonical_spec :
+  forall (tr : tree) (rest : bytes), tree_size_ok tr = true ->
+    Decode (RLP tr ++ rest) = Ok (Some (of_tree tr), length (RLP tr)) /\ to_tree (of_tree tr) = tr.
+Proof. exact Decode_canonical_spec. Qed.
+Print Assumptions C06_decode_canonical_spec.
+
+(* 9. (I2) The Yellow-Paper encoding is prefix-free on that region. *)
+Theorem C06_RLP_prefix_free :
+  forall tr tr' rest rest', tree_size_ok tr = true -> tree_size_ok tr' = true ->
+    RLP tr ++ rest = RLP tr' ++ rest' -> tr = tr' /\ rest = rest'.
+Proof. exact RLP_prefix_free. Qed.
+Print Assumptions C06_RLP_prefix_free.
+
+(* 10. (I2) "decoded to the tree a strict decoder yields".  [strict bs tr p] (Rlp/Strict.v) is a strict
+       decoder as a relation over the specification alone: bs = RLP tr ++ rest and p = |RLP tr|.
+       On every input a strict decoder accepts, the lenient Decode returns exactly the strict answer;
+       the strict answer is unique; and strict accepts every canonical encoding with any suffix. *)
+Theorem C06_strict_decoder_agrees :
+  (forall bs tr p, tree_size_ok tr = true -> strict bs tr p ->
+     Decode bs = Ok (Some (of_tree tr), p) /\ to_tree (of_tree tr) = tr) /\
+  (forall bs tr tr' p p', tree_size_ok tr = true -> tree_size_ok tr' = true ->
+     strict bs tr p -> strict bs tr' p' -> tr = tr' /\ p = p') /\
+  (forall tr rest, strict (RLP tr ++ rest) tr (length (RLP tr))).
+Proof. exact strict_decoder_agrees. Qed.
+Print Assumptions C06_strict_decoder_agrees.
+
+(* 11. (I3) The nil element is returned for the empty input only, and every outcome of Decode is one of:
+       an error (not the model's fuel artefact) on a non-empty input; the nil element at position 0 on
+       the empty input; an element of the accepted region with 1 <= position <= |input|. *)
+Theorem C06_nil_element_only_for_empty_input :
+  forall bs p, Decode bs = Ok (None, p) -> bs = [] /\ p = 0%nat.
+Proof. exact Decode_nil_only_empty. Qed.
+Print Assumptions C06_nil_element_only_for_empty_input.
+
+Theorem C06_decode_outcomes :
+  forall bs : bytes,
+    (exists e, Decode bs = Err e /\ e <> EOutOfFuel /\ bs <> []) \/
+    (Decode bs = Ok (None, 0%nat) /\ bs = []) \/
+    (exists t p, Decode bs = Ok (Some t, p) /\ (1 <= p <= length bs)%nat /\ size_ok t = true /\
+                 (length (encode t) <= p)%nat).
+Proof. exact Decode_outcomes. Qed.
+Print Assumptions C06_decode_outcomes.
+
+(* 12. (I1) Theorems 1 and 2 with one guard on the specification's output alone: every tree whose
+       Yellow-Paper encoding is at most 2^31-1 bytes long (the property quantifies to 2^24-byte strings)
+       is encoded to it and decoded back from it, whatever follows. *)
+Theorem C06_round_trip_by_encoding_length :
+  forall (t : item) (rest : bytes),
+    (N.of_nat (length (RLP (to_tree t))) <= 2147483647)%N ->
+    encode t = RLP (to_tree t) /\
+    Decode (RLP (to_tree t) ++ rest) = Ok (Some t, length (RLP (to_tree t))).
+Proof. exact decode_encode_by_length. Qed.
+Print Assumptions C06_round_trip_by_encoding_length.
+
+(* 13. (V3, I2) The guards of theorems 1, 2, 5 (written with the model's [encode]) and the
+       specification-side guard are the same predicate; [size_ok] implies [len_ok]; a bound on the
+       encoding's length implies [size_ok]; [to_tree] is injective. *)
+Theorem C06_guards_agree :
+  (forall t, tree_size_ok (to_tree t) = size_ok t) /\
+  (forall tr, size_ok (of_tree tr) = tree_size_ok tr) /\
+  (forall t, size_ok t = true -> len_ok t) /\
+  (forall t, (N.of_nat (length (encode t)) <= 2147483647)%N -> size_ok t = true) /\
+  (forall t t', to_tree t = to_tree t' -> t = t').
+Proof. exact guards_agree. Qed.
+Print Assumptions C06_guards_agree.
+
+(* (I4) non-vacuity of theorems 3/4/11 where they say more than theorem 2: a NON-canonical input is
+   accepted (its element re-encodes to fewer bytes than were consumed), a non-canonical list likewise,
+   and error inputs of each error class exist (so [<> Panic] is not "the model never fails"). *)
+Example C06_noncanonical_accepted :
+  Decode [xb8; x01; x05] = Ok (Some (Str [x05]), 3%nat) /\ encode (Str [x05]) = [x05] /\
+  Decode (encode (Str [x05])) = Ok (Some (Str [x05]), 1%nat) /\
+  Decode [xb8; x00] = Ok (Some (Str []), 2%nat) /\
+  Decode [xc2; x81; x05; x07] = Ok (Some (Lst [Str [x05]]), 3%nat) /\
+  Decode [xf8; x01; x80; xff] = Ok (Some (Lst [Str []]), 3%nat).
+Proof. vm_compute. repeat split; reflexivity. Qed.
+
+Example C06_error_inputs :
+  Decode [xbf; x80; x00; x00; x00; x00; x00; x00; x00] = Err ETooMany /\
+  Decode [xbf; xff; xff; xff; xff; xff; xff; xff; xff] = Err ETooMany /\
+  Decode [xc1] = Err ELenShort /\ Decode [xb9; x01] = Err ELenLong /\
+  Decode [xb8; x02; x05] = Err ELenData /\ Decode [xc2; x81] = Err ELenShort /\
+  Decode [] = Ok (None, 0%nat).
+Proof. vm_compute. repeat split; reflexivity. Qed.
+
+(* the model CAN panic where a guard is missing: the slice the decoder takes, without its guard *)
+Example C06_slice_can_panic : slice [x05] 0 2 = Panic /\ slice [x05] 1 0 = Panic.
+Proof. vm_compute. split; reflexivity. Qed.
+
+(* (I2) non-vacuity of theorems 8-10, 12: a nested specification tree with a 56-byte string is in the
+   region, strict accepts its encoding followed by a byte, and Decode gives the strict answer *)
+Example C06_strict_nonvacuous :
+  let tr := L [B (repeat x61 56); L [B []; B [x7f]; B [x80]]] in
+  tree_size_ok tr = true /\ strict (RLP tr ++ [x01]) tr 65%nat /\
+  Decode (RLP tr ++ [x01]) = Ok (Some (of_tree tr), 65%nat) /\
+  (N.of_nat (length (RLP (to_tree (of_tree tr)))) <= 2147483647)%N.
+Proof.
+  cbv zeta. split; [vm_compute; reflexivity|]. split; [exists [x01]; split; [reflexivity|vm_compute; reflexivity]|].
+  split; [vm_compute; reflexivity|]. vm_compute. discriminate.
+Qed.
+
+(* 14. (I2, converse) WHICH accepted inputs are canonical: if Decode consumed exactly as many bytes as the
+       canonical encoding of the element it returns, the consumed bytes ARE that encoding; in terms of the
+       specification: an accepted input is accepted by the strict decoder (same tree, same position)
+       exactly when p = |RLP tree|, and every other accepted input consumed strictly more bytes.
+       Proofs in Rlp/Exact.v (a second loop invariant over decode_items). *)
+From FFS Require Import Rlp.Exact.
+Theorem C06_exact_consumption_is_canonical :
+  forall bs t p, Decode bs = Ok (Some t, p) -> p = length (encode t) ->
+    exists rest, bs = encode t ++ rest.
+Proof. exact Decode_exact_is_canonical. Qed.
+Print Assumptions C06_exact_consumption_is_canonical.
+
+Theorem C06_lenient_vs_strict :
+  forall bs t p, Decode bs = Ok (Some t, p) ->
+    (p = length (RLP (to_tree t)) <-> strict bs (to_tree t) p) /\
+    ((length (RLP (to_tree t)) < p)%nat <-> ~ strict bs (to_tree t) p).
+Proof. exact Decode_canonical_iff. Qed.
+Print Assumptions C06_lenient_vs_strict.
+
+(* non-vacuity of 14: both sides occur - a canonical input with trailing bytes (p = |RLP|), and the
+   non-canonical b8 01 05 (p = 3 > 1 = |RLP|) *)
+Example C06_lenient_vs_strict_nonvacuous :
+  Decode [x82; x05; x06; xff] = Ok (Some (Str [x05; x06]), 3%nat) /\
+  length (RLP (to_tree (Str [x05; x06]))) = 3%nat /\
+  Decode [xb8; x01; x05] = Ok (Some (Str [x05]), 3%nat) /\ length (RLP (to_tree (Str [x05]))) = 1%nat.
+Proof. vm_compute. repeat split; reflexivity. Qed.
+
+(* 15. (I6; outside the property text) WrapInt on a SIGNED argument: Go's WrapInt (argument: pointer to big.Int) stores
+       big.Int.Bytes(), the magnitude, so the sign is dropped - Int() gives |z| back; it gives z back exactly
+       for z >= 0 (theorem 6 is the N-instance).  The harness runs negative arguments against this model
+       (case kind helper/WrapInt-negative). *)
+Theorem C06_wrapint_sign_is_dropped :
+  (forall z : Z, DataInt (ToData (WrapIntZ z)) = Some (Z.abs_N z)) /\
+  (forall z : Z, (0 <= z)%Z -> DataInt (ToData (WrapIntZ z)) = Some (Z.to_N z)) /\
+  (forall z : Z, WrapIntZ (- z) = WrapIntZ z) /\
+  (forall n : N, WrapIntZ (Z.of_N n) = WrapInt n).
+Proof. exact WrapIntZ_sign_dropped. Qed.
+Print Assumptions C06_wrapint_sign_is_dropped.
+
+Example C06_wrapint_negative : WrapIntZ (-256) = Str [x01; x00] /\ DataInt (ToData (WrapIntZ (-256))) = Some 256%N.
+Proof. vm_compute. split; reflexivity. Qed.
